@@ -59,6 +59,10 @@ CORPUS = [
 ]
 
 EXTRA_SEEDS = [
+    # `continue` inside a `switch`: directly in an OKL loop (rejected since F61) and inside a sequential loop (valid);
+    # validation must terminate on both (seeded change C16-m1 made the ancestor walk spin on the first)
+    "@kernel void k(const int N, int *a) {\n  for (int o = 0; o < N; ++o; @outer) {\n    for (int i = 0; i < 4; ++i; @inner) {\n      switch (i) { case 0: continue; default: break; }\n      a[o * 4 + i] = i;\n    }\n  }\n}\n",
+    "@kernel void k(const int N, int *a) {\n  for (int o = 0; o < N; ++o; @outer) {\n    for (int i = 0; i < 4; ++i; @inner) {\n      for (int j = 0; j < 3; ++j) {\n        switch (j) { case 1: continue; default: break; }\n        a[o * 4 + i] += j;\n      }\n    }\n  }\n}\n",
     # every OKL attribute at least once, in valid positions
     "@kernel void k(const int N, float *a @restrict, const float *b) {\n  for (int o = 0; o < N; o += 16; @outer(0)) {\n    @shared float s[16];\n    @exclusive int e;\n    for (int i = o; i < o + 16; ++i; @inner(0)) {\n      e = i;\n      s[i - o] = b[i];\n    }\n    @barrier();\n    for (int i = o; i < o + 16; ++i; @inner(0)) {\n      if (e < N) { @atomic a[0] += s[i - o]; }\n    }\n  }\n}\n",
     "typedef float mat @dim(4, 4);\n@kernel void k(const int N, mat *m, int *x @dim(N, N) @dimOrder(1, 0)) {\n  for (int j = 0; j < N; ++j; @tile(8, @outer, @inner, check=false)) {\n    for (int i = 0; i < N; ++i; @tile(4, @outer(1), @inner(1))) {\n      x(i, j) = i + j;\n    }\n  }\n}\n",
